@@ -33,15 +33,15 @@ def _corruptions(traces):
         pushes = [i for i, e in enumerate(evs) if e["e"] == "FramePush"]
         if pops and not any(x["id"] == "__selftest_drop_pop" for x in out):
             i = pops[len(pops) // 2]
-            out.append({"id": "__selftest_drop_pop", "events": evs[:i] + evs[i + 1:]})
+            out.append({"id": "__selftest_drop_pop", "base": t["id"], "events": evs[:i] + evs[i + 1:]})
         if pushes and not any(x["id"] == "__selftest_depth" for x in out):
             i = pushes[-1]
             e2 = dict(evs[i]); e2["d"] = e2["d"] + 1
-            out.append({"id": "__selftest_depth", "events": evs[:i] + [e2] + evs[i + 1:]})
+            out.append({"id": "__selftest_depth", "base": t["id"], "events": evs[:i] + [e2] + evs[i + 1:]})
         tries = [i for i, e in enumerate(evs) if e["e"] == "TryStart"]
         if tries and any(e["e"] == "Caught" for e in evs) and not any(x["id"] == "__selftest_drop_try" for x in out):
             i = tries[0]
-            out.append({"id": "__selftest_drop_try", "events": evs[:i] + evs[i + 1:]})
+            out.append({"id": "__selftest_drop_try", "base": t["id"], "events": evs[:i] + evs[i + 1:]})
         if len(out) >= 3:
             break
     return out
@@ -88,8 +88,12 @@ def validate(traces, tag="vm", shards=8, timeout=900):
     missing = [t["id"] for t in traces if t["id"] not in verdicts]
     if missing:
         raise common.ToolError("no verdict for %d traces" % len(missing))
-    accepted = [t["id"] for t in selftest if verdicts[t["id"]]["ok"]]
+    # a corrupted copy says something only when the trace it was made from is itself accepted (the copy of a trace that
+    # the specification rejects -- a violation reported by the caller -- may happen to be well-formed)
+    accepted = [t["id"] for t in selftest if verdicts[t["id"]]["ok"] and verdicts[t["base"]]["ok"]]
     if accepted:
+        with open(os.path.join(common.WORK, "selftest_accepted.json"), "w") as f:
+            json.dump([t for t in selftest if t["id"] in accepted] + [t for t in traces if t["id"] in [x["base"] for x in selftest if x["id"] in accepted]], f)
         raise common.ToolError("binding self-test: corrupted traces were accepted by Trace_KotoVm.tla: %s" % accepted)
     for t in selftest:
         del verdicts[t["id"]]
